@@ -506,3 +506,20 @@ Proof.
   assert (Hjl : (j <? length ss) = true) by (apply Nat.ltb_lt; exact Hj). rewrite Hjl, andb_true_r.
   rewrite Nat.eqb_sym. destruct (i =? j); reflexivity.
 Qed.
+
+(* ---------- DELETE PIPE + CREATE PIPE under the same name: a new epoch with fresh positions ---------- *)
+Lemma recreate_quiescent s : quiescent s = true -> recreate s = init (log s) (length (log s)).
+Proof.
+  unfold quiescent, recreate, init. destruct (infl s); [|discriminate]. destruct (queue s); [|discriminate].
+  intros H. apply andb_true_iff in H. destruct H as [H _]. apply Nat.eqb_eq in H. rewrite H. reflexivity.
+Qed.
+
+Theorem recreate_exact af tags s1 sched :
+  quiescent s1 = true ->
+  (af = true \/ Forall write_all_keep sched) -> Forall enq_in_order sched ->
+  let s := run af tags (recreate s1) sched in
+  alive s = true -> quiescent s = true -> dst s = expected tags (length (log s1)) (log s).
+Proof.
+  intros Hq Hf Ho. rewrite (recreate_quiescent s1 Hq).
+  exact (exact_partial af tags (log s1) _ sched eq_refl Hf Ho).
+Qed.
